@@ -489,6 +489,66 @@ def callers_of(prog: Program, qualnames: Iterable[str]) -> list[tuple[Func, ast.
     return list(out.values())
 
 
+def call_sites(prog: Program, qualnames: Iterable[str], *, attr_fallback: bool = True) -> list[tuple[Func, ast.Call]]:
+    """Like `callers_of`, but a call whose receiver cannot be typed (`?.name`) counts as a call site when
+    the attribute name matches (over-approximation: no call site is lost to an untyped receiver).  Only
+    the modules whose text contains the simple name are indexed."""
+    qualnames = list(qualnames)
+    simple = {q.rpartition(".")[2] for q in qualnames}
+    out: dict[int, tuple[Func, ast.Call]] = {}
+    for m in prog.modules.values():
+        if not any(nm in m.source for nm in simple):
+            continue
+        idx = _module_call_index(prog, m)
+        for nm in simple:
+            for fq, c in idx.get(nm, ()):
+                f = prog.functions.get(fq)
+                if f is None or f.module is not m:
+                    continue
+                if resolves_to(prog, f, c, qualnames, attr_fallback=attr_fallback):
+                    out[id(c)] = (f, c)
+    return list(out.values())
+
+
+def param_default(fn: ast.FunctionDef | ast.AsyncFunctionDef, name: str) -> ast.AST | None:
+    """Default value expression of parameter `name` (None when it has none)."""
+    a = fn.args
+    pos = a.posonlyargs + a.args
+    first = len(pos) - len(a.defaults)
+    for i, x in enumerate(pos):
+        if x.arg == name and i >= first:
+            return a.defaults[i - first]
+    for x, d in zip(a.kwonlyargs, a.kw_defaults):
+        if x.arg == name:
+            return d
+    return None
+
+
+def param_truth_domain(prog: Program, f: Func, name: str) -> set[bool]:
+    """Truth values parameter `name` of `f` can have at entry: the constants bound by the call sites of the
+    whole program (the default where a site omits it); both values as soon as one site passes something
+    that is not a literal constant, forwards */**, or no call site is known."""
+    both = {True, False}
+    default = param_default(f.node, name)
+    sites = call_sites(prog, [f.qualname])
+    if not sites:
+        return both
+    out: set[bool] = set()
+    for g, c in sites:
+        b = bind_args(f.node, c, bound=f.cls is not None)
+        if b is None:
+            return both
+        v = b.get(name, default)
+        if v is None:
+            return both
+        vs = [strip(o) for o in origins(g, v)] or [strip(v)]
+        for x in vs:
+            if not isinstance(x, ast.Constant):
+                return both
+            out.add(bool(x.value))
+    return out or both
+
+
 # ------------------------------------------------------------------ short-circuit truth tables of a test
 
 
